@@ -97,3 +97,28 @@ func HarnessC03Paths() {
 	c03Check(strings.Split(text, "\n"), path)
 	verif.Reach("batch-done")
 }
+
+// HarnessC03Interleave: two rule files are parsed one after the other and only then used, first
+// the one parsed first (what two overlapping Pack calls or bundle builds do). What the first
+// ruleset says must not depend on the second having been parsed in between.
+var c03Small = []string{"a", "!a", "b", "a/", "*", "/a", "a\nb", "!b\na", "?", "a*", "# c\na", ""}
+
+func HarnessC03Interleave() {
+	path := verif.Bytes("path", verif.Param("nPath", 3))
+	verif.Assume(c03PathOK(path))
+	ta := c03Small[verif.Choose("first", len(c03Small))]
+	tb := c03Small[verif.Choose("second", len(c03Small))]
+	ra, err1 := ParseIgnoreFileContent(strings.NewReader(ta))
+	rb, err2 := ParseIgnoreFileContent(strings.NewReader(tb))
+	if err1 != nil || err2 != nil {
+		verif.Assert("C03-rule-file-parses", false)
+		return
+	}
+	resA, _ := ra.Excludes(path)
+	resB, _ := rb.Excludes(path)
+	verif.Observe("first", ta)
+	verif.Observe("second", tb)
+	verif.Assert("C03-excluded-iff-rule-language-says-so", resA.Excluded == c03RefExcluded(strings.Split(ta, "\n"), path))
+	verif.Assert("C03-excluded-iff-rule-language-says-so", resB.Excluded == c03RefExcluded(strings.Split(tb, "\n"), path))
+	verif.Reach("interleaved")
+}
